@@ -316,13 +316,12 @@ def blocked_cases(rep, quick, seed):
             runs.append(attempt(d, a, f"dask:{cn}:{sc[0]}{sc[1] or ''}", "lazy", sched=sc))
         # chunked time axis: refuse (or rechunk), never another value
         runs.append(attempt(da.chunk({"time": 5, "y": 2, "x": 2}), aux, "dask:time-chunked", "lazy", timechunked=True))
-        # dimension orders (zonal.mean is documented for (time, y, x) only)
-        if name != "zonal_mean":
-            for order in (("y", "x", "time"), ("y", "time", "x")):
-                rr = attempt(da.transpose(*order), aux, "dims:" + ",".join(order), "dimorder")
-                if name == "anom_ratio":
-                    rr["coords"] = base["coords"]
-                runs.append(rr)
+        # dimension orders (every operation, zonal.mean included: 82b24a3)
+        for order in (("y", "x", "time"), ("y", "time", "x")):
+            rr = attempt(da.transpose(*order), aux, "dims:" + ",".join(order), "dimorder")
+            if name == "anom_ratio":
+                rr["coords"] = base["coords"]
+            runs.append(rr)
         # permuted pixels: results must move with the pixels
         perm = list(range(ny * nx))
         rng.shuffle(perm)
